@@ -17,7 +17,7 @@ CHECKS = {
          "Accepted rlwe literals (both ring types, 1..4 Q / 0..2 P primes of mixed sizes, 8 secret and 5 error distributions) x every level x sk/pk x encryptor variants (ShallowCopy, WithKey, WithPRNG) x degree 0/1/2 x IsNTT x IsMontgomery: metadata equality, exact noise vector vs worst-case bound, pooled std in [nominal/2, 2 nominal], distinct errors/ciphertexts on re-encryption, unreadability under an independent key; every component of public, relinearisation, Galois and generic evaluation keys (incl. compressed+Expand, all (LevelQ, LevelP), power-of-two digits) is checked to be an encryption of exactly its gadget payload with error <= the truncation bound.",
          "ring arithmetic used for c0+c1*s is trusted from C01; lower bounds only see >2x deviations of sigma; Element[ringqp.Poly] targets are observed through key generation only", "4/C03"),
  "C04": ("exploration", "runtime monitor with secret-key observation: after every key-switching entry point the phase under the target key is compared with the exactly transformed plaintext against a worst-case decomposition-derived noise bound",
-         "Parameter sets with 1..6 Q and 0..3 P primes of mixed sizes, both ring types, 5 secret distributions; evaluation-key parameters (LevelQ, LevelP, w in 0..30, Compressed) drawn per case; ApplyEvaluationKey, Relinearize, Automorphism, AutomorphismHoisted(Lazy), GadgetProduct, GadgetProductLazy, GadgetProductHoisted(Lazy)+ModDown on ciphertexts at levels <= key level, NTT and coefficient domain; compressed keys: Expand determinism and equality with the keyed uniform stream; missing keys must give errors. Not yet covered: ring-degree switching, standard/conjugate-invariant swap, RingPackingEvaluator.",
+         "Parameter sets with 1..6 Q and 0..3 P primes of mixed sizes, both ring types, 5 secret distributions; evaluation-key parameters (LevelQ, LevelP, w in 0..30, Compressed) drawn per case; ApplyEvaluationKey, Relinearize, Automorphism, AutomorphismHoisted(Lazy), GadgetProduct, GadgetProductLazy, GadgetProductHoisted(Lazy)+ModDown on ciphertexts at levels <= key level, NTT and coefficient domain; compressed keys: Expand determinism and equality with the keyed uniform stream; missing keys must give errors. Ring-degree switching (small<->large), the standard/conjugate-invariant swap (ckks.DomainSwitcher, both directions) and RingPackingEvaluator (Split/Merge/Expand/Pack/Extract(Naive)/Repack(Naive)) are judged the same way against exact coefficient models.",
          "worst-case bounds are loose by design (no false alarm possible from noise); only defects that push noise towards Q_level are visible", "4/C04"),
  "C07": ("exploration", "runtime reference-model monitor: encoders/decoders executed on boundary-heavy message vectors and compared with exact Z_t models and an independent arbitrary-precision canonical embedding",
          "BGV: every level x batched/coefficient x IsNTT x uint64/int64 x boundary patterns x lengths x scales, exact residues, signed range, zero padding, decode under maximal admissible noise, product of encodings, Embed into ring.Poly/ringqp.Poly; CKKS: both rings, all LogDimensions, 8 precisions, 4 input and output types, Encode/Embed/Decode/DecodePublic/FFT/IFFT against an O(n^2) big-float embedding with the rounding + working-precision bound. 8 genuine defects recorded as known findings.",
@@ -41,6 +41,9 @@ CHECKS = {
  "C09": ("exploration", "runtime snapshot/differential monitor: deep reflection snapshots of every non-output argument around each call, fresh-vs-aliased and clean-vs-poisoned-history differential execution over a method x pattern table",
          "bgv/ckks/rlwe/rgsw evaluators, ring.Ring (61 rows) and BasisExtender, encoders, encryptor/decryptor/keygen, lintrans and polynomial evaluators, multiparty protocols; patterns: fresh, out=op0, out=op1, op0=op1, all equal, poisoned scratch buffers (3 kinds), warm evaluator, output that held a degree-2 top-level value; equality on canonical residues + exact metadata.",
          "a mutation of an input that is restored before return is invisible; ringqp ops, ring packing, bootstrapping and mp refresh are not in the table", "4/C09"),
+ "C10": ("exploration", "runtime structural + differential + race monitor: every ShallowCopy/CopyNew/AtLevel/WithKey/WithPRNG/WithParams result is walked by reflection against its original (shared writable regions hashed around the workload), driven in original/copy interleavings against a never-copied reference, and run concurrently under the Go race detector",
+         "All 61 exported copy constructors (ring, rlwe, rgsw, bgv, ckks, multiparty, bootstrapping, lintrans/polynomial evaluators) on boundary and random parameter sets: scalar/table equality, no dropped field, re-allocated scratch not smaller, deep copies share no memory and survive bit-flipping of the other side; sequential original/copy/copy-of-copy results equal the reference bit for bit (deterministic objects) or functionally (randomised ones); race/ cases run 2..16 goroutines (one copy each) at GOMAXPROCS 2/4/16 with results compared to the sequential reference and detector reports deduplicated by entry-point pair.",
+         "interleavings are sampled; the race detector only sees the accesses the workload makes; fields the workload never touches are covered structurally only", "4/C10"),
  "C11": ("exploration", "runtime reference-model monitor: Galois-element algebra against a math/big model (exhaustive for small rings), rotations/sums/traces judged in the phase domain against the coefficient automorphism model with worst-case key-switch bounds, evaluators holding exactly the advertised keys",
          "std and CI rings logN 4..11, ckks/bgv/rlwe, all k in [-2 slots, 2 slots] for small rings plus k near 2^62/2^63, plain/hoisted/lazy variants, every (batch, n) for <= 64 slots, Trace for every logN; missing-key errors with exactly the advertised Galois elements are violations.",
          "Trace in the CI ring not judged; hoisted ops only with P; CKKS slot tolerances are worst-case", "4/C11"),
